@@ -16,12 +16,12 @@ P = {
                  "C11_cc_cache_transparent", "C11_cc_F4_refuted", "C11_jf_cache_transparent", "C11_F5_refuted"],
     "streams": [{
         "name": "histories", "pkg": "./internal/rules/mechanisms", "test": "TestVerifC11",
-        "overlay": OVERLAY, "eval_module": "Run.Eval_C11", "check_term": "check fx_none",
+        "overlay": OVERLAY, "eval_module": "Run.Eval_C11", "check_term": "check fx_all",
         "n_quick": 800, "n_thorough": 12000, "shard": 56,
-        "findings": {1: "C11-F1", 2: "C11-F2", 3: "C11-F3", 4: "C11-F4", 6: "C11-F6", 7: "C11-F7"},
+        "findings": {4: "C11-F4", 6: "C11-F6", 7: "C11-F7"},
     }, {
         "name": "keys", "pkg": "./internal/rules/mechanisms", "test": "TestVerifC11Keys",
-        "overlay": OVERLAY, "eval_module": "Run.Eval_C11", "check_term": "check2",
+        "overlay": OVERLAY, "eval_module": "Run.Eval_C11", "check_term": "check2 true false",
         "n_quick": 300, "n_thorough": 6000, "shard": 56,
         "findings": {4: "C11-F4", 5: "C11-F5"},
     }],
